@@ -35,17 +35,19 @@ pub struct Excl {
 }
 
 impl Excl {
+    /// the switches of the findings that are still open (the others were repaired in /repo and
+    /// their regions are explored at full depth again)
     pub fn all() -> Excl {
         Excl {
-            texture_filenames: true,
-            event_ranges: true,
-            header_slot_flags: true,
-            seq_start_overflow: true,
-            embedded_skin_batches: true,
-            embedded_skins_on_convert: true,
-            bone_ranges_on_upconvert: true,
-            skin_batches_after_submeshes: true,
-            anim_modern_tracks: true,
+            texture_filenames: false,
+            event_ranges: false,
+            header_slot_flags: false,
+            seq_start_overflow: false,
+            embedded_skin_batches: false,
+            embedded_skins_on_convert: false,
+            bone_ranges_on_upconvert: false,
+            skin_batches_after_submeshes: false,
+            anim_modern_tracks: false,
             anim_legacy: true,
             odd_key_counts: false,
         }
